@@ -695,6 +695,7 @@ func C18(tier string) {
 	run.Outcome(fmt.Sprintf("schedules=%d", e3.sch))
 	run.Sample(map[string]any{"service": svcContents{Vers: []svcVersion{{Name: "p", Version: "1.0.0", Deps: []svcDep{{"dep", "x", "npm:b@^1.0.0"}}, Bundled: []svcBundle{{Path: []string{"b"}, Name: "b", Version: "2.0.0"}, {Path: []string{"b", "c"}, Name: "c", Version: "1.0.0"}}}}}})
 	run.Assumptions = []string{"plain memory accesses between scheduling points are not interleaved by the cooperative scheduler; unsynchronised access to the bundle map is outside what E3 sees (the map is only touched under the mutex in the explored code)", "the reference mapping is a 60-line model written from the API client's documentation"}
+	runRacePass(run, "C18", tier)
 	run.Finish()
 }
 
@@ -749,6 +750,8 @@ func c18Replay(w string) (bool, string) {
 	p := core.Split(w)
 	var s svcContents
 	switch p[0] {
+	case "race":
+		return raceReplay(p[1], p[2])
 	case "svc":
 		if json.Unmarshal([]byte(p[2]), &s) != nil {
 			return true, "bad contents"
